@@ -94,6 +94,7 @@ namespace sim
     unsigned long alloc_count = 0;
     bool alloc_fired = false;
     SchedStats sched;
+    std::vector<uint32_t> sched_dev; // copy of the deviation pairs (the scheduler's buffer is reused)
     unsigned tsan_reports = 0;
     unsigned would_terminate = 0;
     unsigned worker_exceptions = 0;
@@ -132,6 +133,7 @@ namespace sim
     std::vector<Resp> resp;
     std::vector<std::vector<Resp>> tresp;
     SchedStats sched;
+    std::vector<uint32_t> sched_dev;
     unsigned tsan_reports = 0;
   };
 
